@@ -321,6 +321,35 @@ func (r *dwRecK8s) take(name string) string {
 	return v
 }
 
+// ---------- an observing network interface: which pod UID every Release is reported for ----------
+
+type dwObserver struct {
+	mu   sync.Mutex
+	seen [][2]string // (podID, podUID)
+}
+
+func (o *dwObserver) Allocate(ctx context.Context, cni *daemon.CNI, request eni.ResourceRequest) (chan *eni.AllocResp, []eni.Trace) {
+	return nil, []eni.Trace{{Condition: eni.ResourceTypeMismatch}}
+}
+func (o *dwObserver) Release(ctx context.Context, cni *daemon.CNI, request eni.NetworkResource) (bool, error) {
+	o.mu.Lock()
+	o.seen = append(o.seen, [2]string{cni.PodID, cni.PodUID})
+	o.mu.Unlock()
+	return false, nil // the next interface handles it (CRDV2 does the same)
+}
+func (o *dwObserver) Priority() int   { return 1 << 20 }
+func (o *dwObserver) Dispose(int) int { return 0 }
+func (o *dwObserver) Run(ctx context.Context, podResources []daemon.PodResources, wg *sync.WaitGroup) error {
+	return nil
+}
+func (o *dwObserver) take() [][2]string {
+	o.mu.Lock()
+	defer o.mu.Unlock()
+	r := o.seen
+	o.seen = nil
+	return r
+}
+
 // ---------- crash-injecting store wrapper ----------
 
 type dwCrash struct{}
@@ -407,6 +436,7 @@ type dWorld struct {
 	lines       []string // the protocol lines of the current case (for violation replays)
 	pendingViol [][2]string
 	cancelDelay int
+	obs         *dwObserver
 	abort       bool // the case ends here (a recorded finding happened; later states are its consequences)
 }
 
@@ -452,7 +482,8 @@ func (w *dWorld) start() error {
 	if err != nil {
 		return err
 	}
-	var nis []eni.NetworkInterface
+	w.obs = &dwObserver{}
+	nis := []eni.NetworkInterface{w.obs}
 	total := 0
 	for _, ni := range attached {
 		w.cloud.mu.Lock()
@@ -510,6 +541,7 @@ func copyFile(src, dst string) error {
 // ---------- observation ----------
 
 type dwRec struct {
+	uid      string // not part of the compared state: the pod UID stored with the record
 	cid, eni string
 	ips      []int
 	stick    bool
@@ -534,6 +566,7 @@ func (w *dWorld) recOf(pr daemon.PodResources) (string, dwRec) {
 	if pr.PodInfo != nil {
 		name = pr.PodInfo.Name
 		r.stick = pr.PodInfo.IPStickTime != 0
+		r.uid = pr.PodInfo.PodUID
 	}
 	for _, it := range pr.Resources {
 		if it.Type != daemon.ResourceTypeENIIP {
